@@ -470,7 +470,8 @@ func runCrashCase(r *rep.Reporter, cc crashCase) {
 		return
 	}
 	rng := gen.Rng(r.Seed, "C15-crash-"+cc.String(), cc.seed)
-	keys := []string{"k0", "k1", "dir/k2", "dir/sub/k3", "k4 with space", "deep/a/b/c/k5", "deep2/x/y/k6"}
+	// (dir/k0 and dir/sub/k1 share their last segment with a top-level key)
+	keys := []string{"k0", "k1", "dir/k2", "dir/sub/k3", "k4 with space", "deep/a/b/c/k5", "deep2/x/y/k6", "dir/k0", "dir/sub/k1"}
 	acked := map[string]objState{}
 	var inflightKey string
 	var inflightNew objState
@@ -609,7 +610,12 @@ func runCrashCase(r *rep.Reporter, cc crashCase) {
 		}
 		r.Count("restarts_read_before_the_first_listing", 1)
 	}
-	for _, v2 := range []string{"", "?list-type=2", "?delimiter=%2F"} {
+	// (folder listings first in every third case: what they look at must not disturb the keys outside the folder)
+	lists := []string{"", "?list-type=2", "?delimiter=%2F", "?prefix=dir%2F&delimiter=%2F", "?prefix=dir%2Fsub%2F&delimiter=%2F"}
+	if (cc.seed+cc.nth+cc.killAt)%3 == 0 {
+		lists = []string{"?prefix=dir%2F&delimiter=%2F", "?prefix=dir%2Fsub%2F&delimiter=%2F", "?list-type=2&prefix=deep%2F&delimiter=%2F", "", "?list-type=2", "?delimiter=%2F"}
+	}
+	for _, v2 := range lists {
 		l, err := cl.do("GET", p2.url(bucket, "")+v2, nil, nil, 0)
 		if err != nil || l.Status != 200 {
 			fail("listing-fails-after-restart", fmt.Sprintf("listing%s: %v %v", v2, l, err), wit())
@@ -834,7 +840,7 @@ func max(a, b int) int {
 
 func runC15(c *Ctx) {
 	r := c.R
-	r.SetRule("(1) clean reopen: random C02-style histories with metadata on bolt, fs-dir and single-dir, closed and reopened at random points and at the end, full snapshot (buckets, listings, bodies, sizes, ETags, metadata headers, GET and HEAD) compared across the reopen and the history continued against S3Model; (2) kill: the real cmd/gofakes3 binary (built from /repo with -tags verif) on bolt, fs and directfs storage, a TCP client streams puts/overwrites/deletes over 5 keys, and the process is SIGKILLed (a) at the n-th hit of every crash hook on the put/delete path, (b) from outside after a PRNG-chosen number of acknowledged operations, (c) while half of an upload body has been sent, (d) under strace, on a thread entering its n-th rename / unlink / mkdir / write (file backends) or pwrite / fdatasync (bolt) system call, start-up of the server included: the windows between two file-system steps that carry no hook; after restart ListBuckets and listings must work, every acknowledged write must be intact (body, ETag, size, listing entry, metadata) and the in-flight write wholly old or wholly new; then every key is overwritten through the recovered server with a tiny object and short metadata, which must be readable at once and after one more kill; distinct = distinct (backend, crash point, n) / kill positions / reopen histories")
+	r.SetRule("(1) clean reopen: random C02-style histories with metadata on bolt, fs-dir and single-dir, closed and reopened at random points and at the end, full snapshot (buckets, listings, bodies, sizes, ETags, metadata headers, GET and HEAD) compared across the reopen and the history continued against S3Model; (2) kill: the real cmd/gofakes3 binary (built from /repo with -tags verif) on bolt, fs and directfs storage, a TCP client streams puts/overwrites/deletes over 5 keys, and the process is SIGKILLed (a) at the n-th hit of every crash hook on the put/delete path, (b) from outside after a PRNG-chosen number of acknowledged operations, (c) while half of an upload body has been sent, (d) under strace, on a thread entering its n-th rename / unlink / mkdir / write (file backends) or pwrite / fdatasync (bolt) system call, start-up of the server included: the windows between two file-system steps that carry no hook; after restart ListBuckets and listings must work, every acknowledged write must be intact (body, ETag, size, listing entry, metadata) and the in-flight write wholly old or wholly new; an upload of a top-level key killed while a key with the same last segment lives in a folder, the folder being listed first after the restart; then every key is overwritten through the recovered server with a tiny object and short metadata, which must be readable at once and after one more kill; distinct = distinct (backend, crash point, n) / kill positions / reopen histories")
 	if c.Only == "" {
 		c15Reopen(r)
 	}
@@ -911,6 +917,22 @@ func runC15(c *Ctx) {
 	}
 	r.Set("crash_cases", len(cases))
 	rep.Parallel(len(cases), 0, func(w, i int) { runCrashCase(r, cases[i]) })
+	if c.Only == "" {
+		type ff struct {
+			kind, point string
+			variant     int
+		}
+		var ffs []ff
+		for _, kind := range []string{"fs", "directfs"} {
+			for _, p := range []string{"fs.put.before-commit", "fs.put.before-rename", "fs.put.after-mkdir"} {
+				for v := 0; v < 6; v++ {
+					ffs = append(ffs, ff{kind, p, v})
+				}
+			}
+		}
+		rep.Parallel(len(ffs), 0, func(w, i int) { runFolderFirstCrash(r, ffs[i].kind, ffs[i].point, ffs[i].variant) })
+		r.Require("folder_first_cases_audited", 20)
+	}
 	var hit []string
 	for kind, ps := range points {
 		for _, p := range ps {
